@@ -22,7 +22,8 @@ def config(tier):
     return {
         "hashseeds": [0, 1] if q else [0, 1, 2, 3, 4, 5, 6, 7],
         "families": ["G1", "G2"],
-        "mc": [{"module": "MCVerilogIO", "cfg": "MCVerilogIO", "workers": 4, "timeout": 900}],
+        "mc": [{"module": "MCVerilogIO", "cfg": "MCVerilogIO", "workers": 4, "timeout": 900},
+               {"module": "MCExprReader", "cfg": "MCBehavioural", "workers": 4, "timeout": 900}],
         "shards": 8 if q else 16,
         "negctl": 12,
     }
@@ -78,11 +79,13 @@ def run_case(case, ctx):
 
     c = build(case["c"], case.get("ord"))
     bbs = list({id(b): b for b in c.blackboxes.values()}.values())
-    exc, c2 = "", None
+    exc, c2, text = "", None, None
     try:
         if case["file"]:
             path = os.path.join(ctx.scratch, "rt_%d_%d.v" % (os.getpid(), ctx.hashseed))
             cg.to_file(c, path, behavioral=case["behavioral"])
+            with open(path) as fh:
+                text = fh.read()
             if case.get("noname"):
                 # the file is not called like the module: the module (and the circuit) keeps its own name
                 c2 = cg.from_file(path, blackboxes=bbs)
@@ -97,8 +100,19 @@ def run_case(case, ctx):
         exc = type(e).__name__
     p = case["c"]
     nt = any(len(f) > 1 for f in p["fi"]) or bool(p["bbs"]) or any(t in ("0", "1", "x") for t in p["ty"])
-    return {"kind": "v_roundtrip", "c": p, "c2": proj(c2) if c2 is not None else {}, "behavioral": case["behavioral"], "exc": exc,
-            "nontrivial": nt}
+    ev = {"kind": "v_roundtrip", "c": p, "c2": proj(c2) if c2 is not None else {}, "behavioral": case["behavioral"], "exc": exc,
+          "nontrivial": nt}
+    if text is not None and not exc:
+        # the abstract syntax of the text the writer really produced (binding of the writer / reader models; drift only)
+        import re as _re
+        from .. import vlog
+
+        bbt = [{"type": b.name, "ins": sorted(b.inputs()), "outs": sorted(b.outputs())} for b in bbs]
+        wp = vlog.parse_writer_text(text, bbt)
+        if wp is not None:
+            ev["wp"] = wp
+            ev["idents"] = sorted(set(_re.findall(r"\\\S+|[A-Za-z_][A-Za-z_0-9$]*", text)))
+    return ev
 
 
 def negctl(e, rng):
